@@ -82,6 +82,9 @@ func cmdCheck(args []string) {
 		os.Exit(2)
 	}
 	id := fs.Arg(0)
+	if r := os.Getenv("VERIF_REPO"); r != "" {
+		*repo = r
+	}
 	t := *tier
 	if t == "" {
 		t = os.Getenv("VERIF_TIER")
